@@ -352,45 +352,70 @@ let op_scan r = function
          let written = ref 0 in
          let reads = ref [] and writes = ref [] in
          List.iter (function
-           | M.EvRead lp -> reads := (string_of_int (int_of_nat lp) ^ "@" ^ string_of_int !written) :: !reads
+           | M.EvRead (lp, n) -> reads := (string_of_int (int_of_nat lp) ^ ":" ^ string_of_int (int_of_nat n) ^ "@" ^ string_of_int !written) :: !reads
+           | M.EvLine _ -> ()
            | M.EvWrite d -> let s = string_of_bytes d in written := !written + String.length s; writes := hex s :: !writes) res.M.trace;
          if String.concat "," (List.rev !reads) <> (if i_reads = "-" then "" else i_reads) then flag r "corr:reads";
          if String.concat "," (List.rev !writes) <> (if i_writes = "-" then "" else i_writes) then flag r "corr:writes"
        end);
     if not impl_panic then begin
       (* ---- C02: conservation, on implementation output alone ---- *)
-      (* content = fwd ++ D ++ rest, D empty iff no snapshot *)
-      if not (is_prefix i_fwd content_s) then flag r "prop:C02:fwd-not-prefix"
-      else if not (is_suffix i_rest content_s) || String.length i_fwd + String.length i_rest > String.length content_s
-      then flag r "prop:C02:rest-not-suffix"
+      (* content = P ++ rest; walking the lines of P: a line is forwarded (it is the next
+         piece of fwd), or it is a K1 line (a "==================" swallowed while looking,
+         or "WARNING: DATA RACE" right after one: the known finding), or the withheld
+         region D starts there and runs to the end of P with nothing forwarded after it. *)
+      if not (is_suffix i_rest content_s) then flag r "prop:C02:rest-not-suffix"
       else begin
-        let d = String.sub content_s (String.length i_fwd) (String.length content_s - String.length i_fwd - String.length i_rest) in
-        if d = "" && i_gs <> None then flag r "prop:C02:snapshot-without-region";
-        if d <> "" && i_gs = None then begin
-          (* K1: only false race-header lines may be withheld without a snapshot *)
-          let ls, tl = split_lines d in
-          if tl = "" && List.for_all (fun l -> let t = String.trim l in t = "==================" || t = "WARNING: DATA RACE") ls
-          then flag r "known:K1" else flag r "prop:C02:bytes-lost"
-        end;
-        (match kind with
-         | "junk" -> if i_fwd <> content_s then flag r "prop:C02:junk-not-identity"
-         | "stream" ->
-           (match split_on ',' aux with
-            | [] -> if i_fwd <> content_s then flag r "prop:C02:junk-not-identity"
-            | reg :: _ ->
-              (match String.split_on_char ':' reg with
-               | [s0; e0] ->
-                 let s0 = int_of_string s0 and e0 = int_of_string e0 in
-                 if String.length i_fwd <> s0 then flag r "prop:C02:region-start"
-                 else if String.length content_s - String.length i_rest <> e0 then flag r "prop:C02:region-end"
-               | _ -> failwith "region"))
-         | "dump" | "race" ->
-           (match String.split_on_char ',' aux with
-            | [pre; post] ->
-              if String.length i_fwd <> int_of_string pre then flag r "prop:C02:region-start";
-              if String.length i_rest <> int_of_string post then flag r "prop:C02:region-end"
-            | _ -> failwith "aux")
-         | _ -> ())
+        let p = String.sub content_s 0 (String.length content_s - String.length i_rest) in
+        let ls, tl = split_lines p in
+        let ls = if tl = "" then ls else ls @ [tl] in
+        let strip l = let l = if is_suffix "\n" l then String.sub l 0 (String.length l - 1) else l in
+                      if is_suffix "\r" l then String.sub l 0 (String.length l - 1) else l in
+        let pos = ref 0 and k1 = ref 0 and prev_sep = ref false and d_start = ref (-1) and off = ref 0 in
+        let pend = ref 0 and pend_start = ref (-1) in
+        let nf = String.length i_fwd in
+        List.iter (fun l ->
+          if !d_start < 0 then begin
+            let n = String.length l in
+            if !pos + n <= nf && String.sub i_fwd !pos n = l then
+              (pos := !pos + n; prev_sep := false; k1 := !k1 + !pend; pend := 0; pend_start := -1)
+            else if strip l = "==================" then
+              (if !pend = 0 then pend_start := !off; incr pend; prev_sep := true)
+            else if !prev_sep && strip l = "WARNING: DATA RACE" then (incr pend; prev_sep := false)
+            else d_start := (if !pend > 0 then !pend_start else !off)
+          end;
+          off := !off + String.length l) ls;
+        if !d_start < 0 && !pend > 0 then d_start := !pend_start;
+        if !pos <> nf then flag r "prop:C02:forwarded-bytes-not-from-input-in-order"
+        else begin
+          if !k1 > 0 then flag r "known:K1";
+          let d = if !d_start < 0 then "" else String.sub p !d_start (String.length p - !d_start) in
+          if d = "" && i_gs <> None then flag r "prop:C02:snapshot-without-region";
+          if d <> "" && i_gs = None then begin
+            let dl, dt = split_lines d in
+            if List.for_all (fun l -> strip l = "==================" || strip l = "WARNING: DATA RACE") (if dt = "" then dl else dl @ [dt])
+            then flag r "known:K1" else flag r "prop:C02:bytes-lost"
+          end;
+          (match kind with
+           | "junk" -> if i_fwd <> content_s then flag r "prop:C02:junk-not-identity"
+           | "stream" ->
+             (match split_on ',' aux with
+              | [] -> if i_fwd <> content_s then flag r "prop:C02:junk-not-identity"
+              | reg :: _ ->
+                (match String.split_on_char ':' reg with
+                 | [s0; e0] ->
+                   let s0 = int_of_string s0 and e0 = int_of_string e0 in
+                   if String.length i_fwd <> s0 then flag r "prop:C02:region-start"
+                   else if String.length content_s - String.length i_rest <> e0 then flag r "prop:C02:region-end"
+                 | _ -> failwith "region"))
+           | "dump" | "race" ->
+             (match String.split_on_char ',' aux with
+              | [pre; post] ->
+                if String.length i_fwd <> int_of_string pre then flag r "prop:C02:region-start";
+                if String.length i_rest <> int_of_string post then flag r "prop:C02:region-end"
+              | _ -> failwith "aux")
+           | _ -> ())
+        end
       end;
       (* ---- C01 / C08: the snapshot the printed AST denotes ---- *)
       if kind = "dump" || kind = "race" then begin
@@ -402,11 +427,37 @@ let op_scan r = function
         if kind = "dump" && i_err <> "eof" then flag r "prop:C01:error";
         if kind = "race" && i_err <> "nil" then flag r "prop:C08:error"
       end;
-      (* ---- C11: at every Read everything complete and not withheld has been written ---- *)
-      (* every complete line delivered before the first consumed line is written before the next Read:
-         with D the withheld region, the bytes written at a Read issued after k bytes were delivered
-         must cover all complete lines within the first min(k, |fwd|) bytes *)
-      ()
+      (* ---- C11: streaming progress, on the implementation's trace alone ---- *)
+      (* at every Read call: with k bytes delivered so far, every complete line within the
+         first k bytes that is forwarded at all has already been written; and no Read is
+         issued once the line that ends the dump has been delivered *)
+      if not (List.mem "known:K1" r.flags) && is_prefix i_fwd content_s then begin
+        let nf = String.length i_fwd in
+        let delivered = ref 0 in
+        let end_line =
+          if i_gs = None then max_int else begin
+            let st = String.length content_s - String.length i_rest in
+            if i_err = "nil" || i_err = "scan" then
+              (match String.index_from_opt content_s (min st (String.length content_s)) '\n' with
+               | Some j when unhex i_suffix <> "" && st < String.length content_s && not (is_suffix "==================\n" (String.sub content_s 0 st) && false) -> j + 1
+               | _ -> max_int)
+            else max_int
+          end in
+        List.iter (fun rd ->
+          match String.split_on_char '@' rd with
+          | [a; w] ->
+            (match String.split_on_char ':' a with
+             | [_; n] ->
+               let k = !delivered in
+               let c = if k <= 0 || content_s = "" then 0 else
+                         (match String.rindex_from_opt content_s (min (k - 1) (String.length content_s - 1)) '\n' with
+                          | Some j -> j + 1 | None -> 0) in
+               if int_of_string w < min c nf then flag r "prop:C11:complete-line-withheld-at-read";
+               if k >= end_line then flag r "prop:C11:read-after-dump-end";
+               delivered := k + int_of_string n
+             | _ -> failwith "read")
+          | _ -> failwith "read") (split_on ',' i_reads)
+      end
     end
   | _ -> failwith "scan: fields"
 
@@ -429,7 +480,8 @@ let () =
         with
         | Failure m -> flag r "driver:error"; r.detail <- m
         | Not_found -> flag r "driver:error"; r.detail <- "Not_found"
-        | Stack_overflow -> flag r "driver:error"; r.detail <- "stack overflow");
+        | Stack_overflow -> flag r "driver:error"; r.detail <- "stack overflow"
+        | e -> flag r "driver:error"; r.detail <- Printexc.to_string e);
         Printf.printf "%s\t%s\t%s\t%s\t%s\n" id (if r.flags = [] then "OK" else "FAIL")
           (String.concat "," (List.rev r.flags)) (String.concat "," (List.rev r.tags)) r.detail
       | _ -> ()
